@@ -130,6 +130,14 @@ Proof.
     f_equal. rewrite (vchain_step (v_text m) (v_base m)), C, NA. reflexivity.
 Qed.
 
+(* the reset of a value list never fails (its two error branches are dead: the first number of the kept text was
+   accepted at creation), and the source created from the kept text is the reset source *)
+Lemma val_reset_ok m : inv_val m -> fst (val_reset m) = 0%Z /\ mk_values (v_text m) (v_base m) = Some (snd (val_reset m)).
+Proof.
+  intros [[len [v [C NA]]] I]. unfold val_reset, mk_values. rewrite C, NA. cbn [fst snd]. split; [reflexivity|].
+  unfold val_set. reflexivity.
+Qed.
+
 Lemma mk_values_inv t p m : mk_values t p = Some m -> inv_val m.
 Proof.
   unfold mk_values. destruct (cdouble t p) as [len [v|]] eqn:C; [|discriminate].
